@@ -1750,6 +1750,12 @@ def _set(I: Interp, args: list[V], kwargs: dict[str, V]) -> V:
 
 
 def set_add(I: Interp, s: VList, x: V) -> None:
+    if s.items is None and s.member is not None:
+        # a set known by its membership predicate only: pointwise update
+        old = s.member
+        s.member = lambda v, old=old, x=x: z3.Or(_b(old(v)), _b(mk_eq(I, v, x)))
+        s.n = z3.Int(I.fresh_name("set_n"))
+        return
     assert s.items is not None
     for y in s.items:
         if I.branch(mk_eq(I, x, y)):
@@ -2237,6 +2243,9 @@ def list_method(I: Interp, recv: VList, name: str, args: list[V], kwargs: dict[s
             n, g, x = recv.n, recv.get, args[0]
             recv.get = lambda j, n=n, g=g, x=x: _ite_v(I, j < n, lambda: g(j), lambda: x)
             recv.n = n + 1
+            if recv.member is not None:
+                old = recv.member
+                recv.member = lambda v, old=old, x=x: z3.Or(_b(old(v)), _b(mk_eq(I, v, x)))
         return NONE
     if name == "extend":
         other = args[0]
